@@ -38,6 +38,9 @@ def lanes(prop, quick_cfgs, thorough_cfgs, engine="e_lanes", extra=None):
 
 PLAN = {
     "C01": lanes("C01", ["sse2", "scalar", "fma"], ["coresimd", "libm", "dbg"]),
+    "C02": lanes("C02", ["sse2", "scalar"], ["coresimd", "libm", "fma"], engine="e_geom"),
+    "C03": lanes("C03", ["sse2", "scalar"], ["coresimd", "fma"], engine="e_geom"),
+    "C04": lanes("C04", ["sse2", "scalar"], ["coresimd", "fma"], engine="e_geom"),
     "C13": lanes("C13", ["sse2", "dbg"], ["scalar"]),
     "C14": lanes("C14", ["sse2", "scalar"], ["coresimd"]),
     "C15": lanes("C15", ["sse2", "scalar", "coresimd"], []),
@@ -49,6 +52,9 @@ for _p in ("C13",):
         _r["shards"] = {"quick": 8, "thorough": 16}
 
 RULES = {
+    "C02": "Every event is one call of a geometric method of a float vector type on generated inputs (dense / moderate / mixed-magnitude / single-axis / small-integer / range-edge / sparse / unit vectors crossed with independent, near-parallel, near-antiparallel, near-orthogonal, exactly parallel and same-scale partners; the lattice of zero / subnormal / tiny / huge / non-finite values for the normalize family). The result is compared with the value recomputed in f64 (f32 APIs) or double-double (f64 APIs) under |err| <= k*eps*S with S = sum of |terms| of the documented formula; angles against atan2(|a x b|, a.b); fallbacks of the normalize family bit-for-bit. Inputs whose intermediate products under/overflow are counted as out of domain. Non-trivial = the exact result is well above the bound (distinguishable from zero); distinct = distinct (type, op, generator-kind pair).",
+    "C03": "Events: (a) exact integer lattice - all 83521 2x2 matrices in [-8,8], the 3x3 lattice [-2,2] (stride 7 quick, all 1953125 thorough), random dense / sparse / rank-deficient / signed-permutation integer matrices of every size: products, determinant, transpose, add/sub/scale through every method/operator form must be exact, inverse*det the exact adjugate; (b) random bit patterns for transpose/neg; (c) real matrices U*diag*V with condition number up to 1e4 (f32) / 1e10 (f64): per-entry bounds k*eps*S for products and determinant (S = sum of |terms|), inverse against adj/det with k*eps*(adjabs/|det| + |inv|*detabs/|det|), and M*inv = inv*M = I. distinct = distinct (type, generator kind, condition decade).",
+    "C04": "Events: integer quaternions in [-8,8] (exact Hamilton product through every product form), random bit patterns for conjugate/neg (sign-bit xor on x,y,z only), random unit (structured: uniform, near-identity, near/at half-turn, single-axis, w near 0) and non-unit quaternions for +,-,*s,/s,dot,length,normalize and the product (k*eps*sum|terms|), and rotation of vectors by unit quaternions through every form (mul_vec3, *, mul_vec3a, Vec3A) against the f64/double-double evaluation of q v q^-1 with 16*eps*|v|, length preservation, (qp)v = q(pv), q^-1(qv) = v, (-q)v = qv.",
     "C13": "Every event is one call of a public operator/method of an integer vector type. 8-bit types: all 65536 operand pairs of every binary operation (swept pair in a rotating lane among benign lanes, and all lanes hostile); 16-bit: all values for unary ops, all 2^32 pairs for the core families in thorough; wider types: boundary lattice pairs and random. The expected lane is the Rust primitive; checked_* must be None iff some lane's primitive is None; the call must panic iff some lane's primitive panics in this profile (release: div by zero, MIN/-1; dbg: also overflow). Non-trivial = operand lanes not all equal; distinct = distinct (type, op, per-lane class tuple, panic expectation).",
     "C14": "Every event is one conversion call (as_* cast, From, TryFrom, mask conversion, tuple/extend/truncate/Vec3A/Quat structural conversion; 733 generated entries). Sources: all values of 8/16-bit scalars, integer/float boundary sets (2^k +- d, type MIN/MAX +- ulps, +-0.5) and random bits for wider ones, a stride sweep (quick) / all 2^32 patterns (thorough) for f32 sources, each value rotating through every lane and alone among benign lanes. Expected lane = `as` / From / TryFrom of the primitive; structural conversions bit-for-bit. Non-trivial = lanes not all equal.",
     "C15": "Masks: all 2^N values of each of the 5 mask types, built through every construction route (new, from_array, From, set from default / all-true, !!, comparisons of vectors incl. every hidden-lane state for BVec3A), all observers (bitmask, any, all, test/set at every index incl. invalid ones which must panic, !, ==, Hash, Debug, Display, [bool;N], [u32;N]) against a [bool;N] model; all ordered pairs for & | ^ and assign forms; SIMD masks vs bool-field masks. cmp* on all 34 numeric vector types: every ordered pair of the special-value pool in every lane plus random; select for all masks on tagged operands bit-for-bit. Non-trivial = mask neither empty nor full / operands differ.",
